@@ -51,7 +51,11 @@ func (w *world) init(seed int64) error {
 		w.trunk = []*types.Block{g}
 		parent := g
 		for h := 1; h <= trunkH; h++ {
-			b, err := f.Make(parent, []*types.Transaction{f.CoinsTx(h, int64(h)*100000)}, bits)
+			tx := f.CoinsTx(h, int64(h)*100000)
+			if h == 1 {
+				tx = f.FundTx(1e15) // the only transaction of an account the nodes' wallets watch; never reorganised
+			}
+			b, err := f.Make(parent, []*types.Transaction{tx}, bits)
 			if err != nil {
 				w.err = err
 				return
